@@ -355,7 +355,13 @@ def explore_walk(ctx):
             # accessors (events, todos, timezones, standard, daylight)
             for node in nodes:
                 for attr, kind in ACCESSORS.items():
-                    if not any(attr in c.properties for c in model.mro(node.cls) if hasattr(c, "properties")):
+                    # the accessor, however the class defines it (decorated method, property(...)
+                    # call, a property factory): looked up through the interpreter
+                    try:
+                        from .absint import PropertyVal
+                        if not isinstance(it._class_attr(node.cls, attr, node), PropertyVal):
+                            continue
+                    except AbsRaise:
                         continue
                     n += 1
                     accessors_seen.add(f"{node.cls.name}.{attr}")
